@@ -28,6 +28,16 @@ def sh(cmd, cwd=None, timeout=600, env=None, input=None):
                            timeout=timeout, env=env, input=input, text=True, errors='replace')
         return p.returncode, p.stdout, p.stderr
     except subprocess.TimeoutExpired as e:
+        # on an overloaded machine (other checks, builds, sweeps running) a time limit says nothing about the command:
+        # run it once more, alone in this thread, with a longer limit, before reporting a timeout
+        try: overloaded = os.getloadavg()[0] > 1.5 * (os.cpu_count() or 1)
+        except OSError: overloaded = False
+        if overloaded and not os.environ.get('VERIF_NO_RETRY'):
+            try:
+                p = subprocess.run(cmd, cwd=cwd, shell=isinstance(cmd, str), capture_output=True,
+                                   timeout=timeout * 4, env=env, input=input, text=True, errors='replace')
+                return p.returncode, p.stdout, p.stderr
+            except subprocess.TimeoutExpired as e2: e = e2
         return 124, (e.stdout or b'').decode(errors='replace') if isinstance(e.stdout, bytes) else (e.stdout or ''), 'TIMEOUT'
 
 _scratch = []
